@@ -8,7 +8,7 @@ PROPS = {
                  "each value is marshalled and unmarshalled on a fresh and on a long-lived instance and compared with the documented "
                  "normalisation computed by the harness's own model. Non-trivial = the type has a composite and the value a non-zero leaf; "
                  "distinct by hash of (config, type, values)."),
-        "jobs": [{"run": "^TestC01", "shards": 48, "timeout_quick": 600, "timeout_thorough": 3000}],
+        "jobs": [{"run": "^TestC01", "shards": 48, "quick_shards": 4, "timeout_quick": 600, "timeout_thorough": 3000}],
     },
     "C02": {
         "rule": ("same generator as C01 (config x type definition x values). Oracle: the harness's reference encoder, written from README/wire.go/"
@@ -16,7 +16,7 @@ PROPS = {
                  "(after sorting map entries with a strict type-guided walker when a map has >1 entry); and Unmarshal of the reference encoding "
                  "with struct fields permuted at every nesting level must give the normalised value. Non-trivial = the encoding has >=2 fields "
                  "or a container; distinct by hash of (config, type, values, permutation seed)."),
-        "jobs": [{"run": "^TestC02", "shards": 48, "timeout_quick": 600, "timeout_thorough": 3000}],
+        "jobs": [{"run": "^TestC02", "shards": 48, "quick_shards": 4, "timeout_quick": 600, "timeout_thorough": 3000}],
     },
     "C18": {
         "rule": ("(1) exhaustive: every 2^k, 2^k±1, 2^k±2 and the extremes as uint64/int64/negated; all tags for wire types 0..5 x indexes 0..4096 and "
@@ -29,6 +29,7 @@ PROPS = {
         "jobs": [
             {"run": "^TestC18(Boundaries|Random|Skip|SkipExhaustive)$", "shards": 4, "timeout_quick": 600, "timeout_thorough": 3000},
             {"run": "^TestC18All32$", "shards": 16, "thorough_only": True, "timeout_thorough": 3000},
+            {"run": "^$", "fuzz": "^FuzzC18Skip$", "fuzztime": "60s", "workers": 8, "shards": 1, "thorough_only": True, "timeout_thorough": 900},
         ],
     },
     "C05": {
@@ -39,7 +40,7 @@ PROPS = {
                  "per element in the repeated form); Read(body) consumes len(body); whole Marshal output walks to its exact end. A second "
                  "generator covers exported codecs (BQTimestampCodec alone and registered on an instance, TimeCodec, TimeCompatCodec, "
                  "InternedStringCodec; null codecs are reached through null-typed fields). Non-trivial = body of >=1 byte; distinct by case hash."),
-        "jobs": [{"run": "^TestC05", "shards": 48, "timeout_quick": 600, "timeout_thorough": 3000}],
+        "jobs": [{"run": "^TestC05", "shards": 48, "quick_shards": 4, "timeout_quick": 600, "timeout_thorough": 3000}],
     },
     "C06": {
         "rule": ("(config x type x value) as C01 with extra weight on values that encode to nothing and on by-value pointer-shaped structs "
@@ -47,7 +48,7 @@ PROPS = {
                  "exact fit-1, large} x {by value, by pointer} x 1-4 repetitions re-using the returned buffer. Oracle: result == prefix || "
                  "Marshal(nil,&v) (up to map entry order via the walker when a map has >1 entry), caller's bytes below len untouched, value "
                  "unchanged. Non-trivial = non-empty prefix; distinct by case hash."),
-        "jobs": [{"run": "^TestC06", "shards": 48, "timeout_quick": 600, "timeout_thorough": 3000}],
+        "jobs": [{"run": "^TestC06", "shards": 48, "quick_shards": 4, "timeout_quick": 600, "timeout_thorough": 3000}],
     },
     "C09": {
         "rule": ("presence-focused generator: structs (nested up to 3 levels) whose fields are pointers to every leaf kind / small structs / "
@@ -57,7 +58,7 @@ PROPS = {
                  "the normalised pointee; a top-level field occurs in the bytes iff it is present (pointer/null) or non-zero (plain), read with "
                  "the harness's walker; Descriptor.ExplicitPresence is true exactly for pointer / null-typed fields and map values. "
                  "Non-trivial = at least one present position whose pointee is zero/empty; distinct by case hash."),
-        "jobs": [{"run": "^TestC09", "shards": 32, "timeout_quick": 600, "timeout_thorough": 3000}],
+        "jobs": [{"run": "^TestC09", "shards": 32, "quick_shards": 4, "timeout_quick": 600, "timeout_thorough": 3000}],
     },
     "C11": {
         "rule": ("(config x type x 1-3 values) as C01 on a long-lived instance (interning tables / pools with history), input buffers with 0-64 bytes "
@@ -66,7 +67,7 @@ PROPS = {
                  "re-used for another Marshal; every earlier result is re-checked after later decodes. Marshal: value unchanged, destination "
                  "bytes below len unchanged, output shares no address range with any string/slice of the value and does not change when the "
                  "value's byte slices are overwritten. Non-trivial = result holds >=1 non-empty string or slice; distinct by case hash."),
-        "jobs": [{"run": "^TestC11", "shards": 32, "timeout_quick": 600, "timeout_thorough": 3000}],
+        "jobs": [{"run": "^TestC11", "shards": 32, "quick_shards": 4, "timeout_quick": 600, "timeout_thorough": 3000}],
     },
     "C03": {
         "rule": ("S = generated struct type (as C01, top-level struct, up to 8 fields) or a compiled catalog type; S' = S after a generated edit "
@@ -76,7 +77,7 @@ PROPS = {
                  "nested structs and behind pointers). Oracle: Unmarshal(Marshal_S(v), &s') == nil and s' equals the projection computed on the "
                  "harness's value model (shared indexes: value decoded as in S; others: prior value). Non-trivial = a removed field with a "
                  "non-zero value precedes a surviving non-zero field in the encoding; labels record the skipped wire forms; distinct by case hash."),
-        "jobs": [{"run": "^TestC03", "shards": 48, "timeout_quick": 600, "timeout_thorough": 3000}],
+        "jobs": [{"run": "^TestC03", "shards": 48, "quick_shards": 4, "timeout_quick": 600, "timeout_thorough": 3000}],
     },
     "C10": {
         "rule": ("stateful / model-based: a case is (config, 1-3 generated struct types, 3-14 operations) run against one long-lived Plenc that also "
@@ -87,7 +88,7 @@ PROPS = {
                  "Invariant after every step: every target equals its model (nil and empty slices interchangeable); every decodeFresh equals "
                  "the normalised value and the decode of a brand-new instance. Non-trivial = a decodeInto whose prior and data are both non-zero, "
                  "or a decodeFresh after >=2 earlier decodes of that type; distinct by hash of the whole operation sequence."),
-        "jobs": [{"run": "^TestC10", "shards": 32, "timeout_quick": 600, "timeout_thorough": 3000}],
+        "jobs": [{"run": "^TestC10", "shards": 32, "quick_shards": 4, "timeout_quick": 600, "timeout_thorough": 3000}],
     },
     "C12": {
         "rule": ("struct types from the protobuf-expressible profile (indexes >=1, every map field tagged proto, no null types; slices, nested "
@@ -99,7 +100,7 @@ PROPS = {
                  "encoder for each configuration and top-level fields not containing a time / a slice of length-delimited elements are "
                  "byte-identical when the corresponding switch is flipped. Non-trivial = the protobuf form has >=1 repeated field or "
                  "Timestamp; distinct by case hash."),
-        "jobs": [{"run": "^TestC12", "shards": 32, "timeout_quick": 600, "timeout_thorough": 3000}],
+        "jobs": [{"run": "^TestC12", "shards": 32, "quick_shards": 4, "timeout_quick": 600, "timeout_thorough": 3000}],
     },
     "C04": {
         "rule": ("targets: a catalog of 43 representative types (every leaf kind, packed/fixed/counted/proto slices, maps incl. struct keys and "
@@ -114,8 +115,9 @@ PROPS = {
                  "by different trailing garbage (and with cap==len) give the identical outcome (read containment). Non-trivial = input of >=2 "
                  "bytes that decodes successfully or derives from a valid encoding; enumerated inputs distinct by construction, others by hash."),
         "jobs": [
-            {"run": "^TestC04(Mutated|Prefixes|JSONAny)$", "shards": 32, "timeout_quick": 600, "timeout_thorough": 3000},
+            {"run": "^TestC04(Mutated|Prefixes|JSONAny)$", "shards": 32, "quick_shards": 4, "timeout_quick": 600, "timeout_thorough": 3000},
             {"run": "^TestC04Exhaustive$", "shards": 16, "quick_shards": 4, "timeout_quick": 600, "timeout_thorough": 3000},
+            {"run": "^$", "fuzz": "^FuzzC04$", "fuzztime": "120s", "workers": 8, "shards": 1, "thorough_only": True, "timeout_thorough": 900},
         ],
     },
     "C15": {
@@ -127,7 +129,8 @@ PROPS = {
                  "equals the call tree in order (ints as decimal text, floats by ParseFloat equality, strings exact or with U+FFFD per invalid "
                  "byte, times by instant, raw literals verbatim); exactly one document; output on the re-used outputter byte-identical to a new "
                  "one. Non-trivial = depth >=2 with an empty container or a string needing escapes; distinct by tree hash."),
-        "jobs": [{"run": "^TestC15", "shards": 16, "timeout_quick": 600, "timeout_thorough": 3000}],
+        "jobs": [{"run": "^TestC15", "shards": 16, "quick_shards": 4, "timeout_quick": 600, "timeout_thorough": 3000},
+                 {"run": "^$", "fuzz": "^FuzzC15$", "fuzztime": "60s", "workers": 8, "shards": 1, "thorough_only": True, "timeout_thorough": 900}],
     },
     "C14": {
         "rule": ("type definitions only: generated struct/slice/map/pointer compositions (up to 8 fields per struct, json tags with and without "
@@ -137,7 +140,7 @@ PROPS = {
                  "timestamp / map / map-entry logical types, element count and order; the synthetic type name of map entries is not asserted). "
                  "Recursive types are excluded by construction and counted under the open finding F10. Non-trivial = >=3 encoded fields of >=2 "
                  "descriptor types; distinct by type hash."),
-        "jobs": [{"run": "^TestC14", "shards": 32, "timeout_quick": 600, "timeout_thorough": 3000}],
+        "jobs": [{"run": "^TestC14", "shards": 32, "quick_shards": 4, "timeout_quick": 600, "timeout_thorough": 3000}],
     },
     "C13": {
         "rule": ("(type x 1-2 values) from the accepted profile in the default configuration, finite floats, times in years 1..9999; excluded by "
@@ -149,7 +152,7 @@ PROPS = {
                  "element for element, string-keyed maps as objects and other maps as {key,value} lists (both as multisets), pointers as their "
                  "target (null when nil), times as RFC 3339 by instant, integers as exact decimal text, floats by ParseFloat equality, invalid "
                  "UTF-8 after U+FFFD replacement. Non-trivial = output has a non-empty array or object; distinct by case hash."),
-        "jobs": [{"run": "^TestC13", "shards": 32, "timeout_quick": 600, "timeout_thorough": 3000}],
+        "jobs": [{"run": "^TestC13", "shards": 32, "quick_shards": 4, "timeout_quick": 600, "timeout_thorough": 3000}],
     },
     "C16": {
         "rule": ("JSON-model trees: nil, bool, int (boundary-biased), float64 (by bits, incl. -0, NaN, Inf), strings (JSON-hostile pool, arbitrary "
@@ -161,7 +164,7 @@ PROPS = {
                  "independent strict reader of the documented {key,type,value} entry format; Descriptor.Read gives valid JSON equal to the tree "
                  "(sub-check skipped, and labelled, when the tree holds a non-finite float or a json.Number that is not a JSON number). "
                  "Non-trivial = depth >=2 and >=3 distinct dynamic types; distinct by tree hash."),
-        "jobs": [{"run": "^TestC16", "shards": 16, "timeout_quick": 600, "timeout_thorough": 3000}],
+        "jobs": [{"run": "^TestC16", "shards": 16, "quick_shards": 4, "timeout_quick": 600, "timeout_thorough": 3000}],
     },
     "C08": {
         "rule": ("definitions from a hazard-injecting generator: structs whose fields are accepted types (as C01) or, with probability 1/6, a type "
@@ -176,7 +179,7 @@ PROPS = {
                  "no codec, stably through the history; a codec that is returned passes a smoke round trip and a strict walk; encoding equals "
                  "that of the struct without its skipped fields, and skipped fields of a pre-filled target are unchanged by Unmarshal. "
                  "Non-trivial = the definition must be refused, or has skipped fields; distinct by definition hash."),
-        "jobs": [{"run": "^TestC08", "shards": 32, "timeout_quick": 600, "timeout_thorough": 3000}],
+        "jobs": [{"run": "^TestC08", "shards": 32, "quick_shards": 4, "timeout_quick": 600, "timeout_thorough": 3000}],
     },
     "C17": {
         "rule": ("sets of 2-4 instances with generated option bits and generated registrations of harness-defined marker codecs (a string-kind codec "
@@ -189,7 +192,7 @@ PROPS = {
                  "bytes; the package-level Marshal/Unmarshal/CodecForType agree with a fresh default-configured instance and with the plain "
                  "kind-based encoding. Values with multi-entry maps are skipped (byte-exact oracle). Non-trivial = >=2 instances whose expected "
                  "encodings differ; distinct by case hash."),
-        "jobs": [{"run": "^TestC17", "shards": 32, "timeout_quick": 600, "timeout_thorough": 3000}],
+        "jobs": [{"run": "^TestC17", "shards": 32, "quick_shards": 4, "timeout_quick": 600, "timeout_thorough": 3000}],
     },
     "C07": {
         "rule": ("schedules are generated inputs. (1) owned schedule: 2-4 goroutines, each with one op (Marshal / Unmarshal / CodecForType) on a type "
@@ -204,7 +207,7 @@ PROPS = {
                  "afterwards, no race report. Non-trivial = >=1 preemption at a codec-construction yield point; distinct by case hash "
                  "(enumerated schedules distinct by construction)."),
         "jobs": [
-            {"run": "^TestC07Schedules$", "shards": 16, "timeout_quick": 600, "timeout_thorough": 3000},
+            {"run": "^TestC07Schedules$", "shards": 16, "quick_shards": 4, "timeout_quick": 600, "timeout_thorough": 3000},
             {"run": "^TestC07Enumerate$", "shards": 16, "quick_shards": 4, "timeout_quick": 600, "timeout_thorough": 3000},
             {"run": "^TestC07Race$", "shards": 4, "race": True, "timeout_quick": 600, "timeout_thorough": 3000},
         ],
@@ -220,7 +223,7 @@ PROPS = {
                  "ever returned is re-checked after every later step. Non-trivial = >=3 distinct strings with a repeat after table growth and a "
                  "buffer overwrite in between (sequential) / a preemption at the intern-miss point (scheduled); distinct by history hash."),
         "jobs": [
-            {"run": "^TestC19(Sequential|Schedules)$", "shards": 16, "timeout_quick": 600, "timeout_thorough": 3000},
+            {"run": "^TestC19(Sequential|Schedules)$", "shards": 16, "quick_shards": 4, "timeout_quick": 600, "timeout_thorough": 3000},
             {"run": "^TestC19Race$", "shards": 4, "race": True, "timeout_quick": 600, "timeout_thorough": 3000},
         ],
     },
